@@ -34,6 +34,9 @@ macro_rules! relaxations {
             pub fn singles() -> Vec<(&'static str, Relaxations)> {
                 vec![ $( ($name, Relaxations { $field: true, ..Self::default() }), )* ]
             }
+            pub fn plus(self, o: Relaxations) -> Relaxations {
+                Relaxations { $( $field: self.$field || o.$field, )* }
+            }
             pub fn minus(self, o: Relaxations) -> Relaxations {
                 Relaxations { $( $field: self.$field && !o.$field, )* }
             }
